@@ -72,6 +72,8 @@ def build(seed: int, cfg: dict):
         inp, out = workload.decl("outsinks", b["text"], rng)
         for m in (workload.DEFAULT, workload.ALL):
             add(b["text"], inp, out, m, b["id"], "sweep-decl:outsinks")
+        inp, out = workload.decl("inall", b["text"], rng)
+        add(b["text"], inp, out, workload.DEFAULT, b["id"], "sweep-decl:inall")
         if rng.random() < cfg["decl_frac"]:
             for mode in ("explicit", "empty", "absent"):
                 inp, out = workload.decl(mode, b["text"], rng)
@@ -82,7 +84,7 @@ def build(seed: int, cfg: dict):
         while len(ms) < cfg["wide_masks"]:
             ms.append(rng.choice([1 << rng.randrange(9), workload.ALL ^ (1 << rng.randrange(9)), rng.randrange(512)]))
         for k, m in enumerate(ms):
-            inp, out = ("auto", "auto") if k % 3 == 0 else workload.decl("outall" if k % 3 == 1 else "outsinks", b["text"], rng)
+            inp, out = ("auto", "auto") if k % 4 == 0 else workload.decl(("outall", "outsinks", "inall")[k % 4 - 1], b["text"], rng)
             add(b["text"], inp, out, m, b["id"], "sweep-wide")
     # twin-joined variants (program + renamed copy + statements joining both bodies): two equally good
     # candidates wherever a pass looks for "the" at-most-one / min-max / sum predicate of a body
@@ -91,7 +93,7 @@ def build(seed: int, cfg: dict):
         while len(ms) < cfg["wide_masks"]:
             ms.append(rng.choice([1 << rng.randrange(9), workload.ALL ^ (1 << rng.randrange(9)), rng.randrange(512)]))
         for k, m in enumerate(ms):
-            inp, out = ("auto", "auto") if k % 3 == 0 else workload.decl("outall" if k % 3 == 1 else "outsinks", b["text"], rng)
+            inp, out = ("auto", "auto") if k % 4 == 0 else workload.decl(("outall", "outsinks", "inall")[k % 4 - 1], b["text"], rng)
             add(b["text"], inp, out, m, b["id"], "sweep-" + b["src"])
     multi = [b for b in safe if b["text"].count(".") >= 2]
     n = 0
